@@ -1,5 +1,5 @@
 From Coq Require Import Extraction ExtrOcamlBasic ZArith List.
 From MV Require Import Csg.CsgDefs Csg.CsgVoxelDefs Csg.CsgStatusDefs.
 Extraction Language OCaml.
-Extraction "../build/ml/c03_model.ml" do_hop do_hop_rc uniq_rc alive init_state VoxOps SVoxOps vovl svovl vbox lden
+Extraction "../build/ml/c03_model.ml" do_hop do_hop_rc uniq_rc alive init_state VoxOps SVoxOps SVoxOpsMin vovl svovl vbox lden
   handle get_node cache_of nodes cells tick st_heap st_handles apply_tr vmem.
